@@ -167,24 +167,49 @@ theorem Loop.join_le_left (v : Nat) (l m : Loop n) : Loop.le v l (l.join m) :=
   ⟨by simp only [Loop.join, Lv.get_reconcile]; exact Lness.le_join_left _ _,
    by simp only [Loop.join, Lv.get_reconcile]; exact Lness.le_join_left _ _⟩
 
-/-- `fixLoop` returns a fixed point of `step`, reached through states that keep `Inv`. -/
+theorem fixLoopN_spec (step : Loop n → St n → Loop n × St n) (Inv : Loop n → St n → Prop)
+    (hstep : ∀ l σ, Inv l σ → Inv (l.join (step l σ).1) (step l σ).2) :
+    ∀ (k : Nat) l σ, l.height < k → Inv l σ → ∃ σi, Inv (fixLoopN step k l σ).1 σi ∧
+      (fixLoopN step k l σ).1.join (step (fixLoopN step k l σ).1 σi).1 = (fixLoopN step k l σ).1 ∧
+      (fixLoopN step k l σ).2 = (step (fixLoopN step k l σ).1 σi).2
+  | 0, l, σ, hk, _ => absurd hk (Nat.not_lt_zero _)
+  | k + 1, l, σ, hk, hi => by
+    unfold fixLoopN
+    by_cases h : l.join (step l σ).1 = l
+    · simp only [h, ↓reduceIte]
+      exact ⟨σ, hi, h, rfl⟩
+    · simp only [h, ↓reduceIte]
+      have hlt := Loop.height_join_lt l (step l σ).1 h
+      exact fixLoopN_spec step Inv hstep k _ _ (by omega) (hstep l σ hi)
+
+/-- `fixLoop` returns a fixed point of `step`, reached through states that keep `Inv`: the
+bound on the number of passes is never what stops the iteration. -/
 theorem fixLoop_spec (step : Loop n → St n → Loop n × St n) (Inv : Loop n → St n → Prop)
     (hstep : ∀ l σ, Inv l σ → Inv (l.join (step l σ).1) (step l σ).2) :
     ∀ l σ, Inv l σ → ∃ σi, Inv (fixLoop step l σ).1 σi ∧
       (fixLoop step l σ).1.join (step (fixLoop step l σ).1 σi).1 = (fixLoop step l σ).1 ∧
       (fixLoop step l σ).2 = (step (fixLoop step l σ).1 σi).2 := by
-  intro l σ
-  induction l, σ using fixLoop.induct (step := step) with
-  | case1 l σ p l2 h =>
-    intro hi
-    rw [fixLoop.eq_1]
-    simp only [show l.join (step l σ).1 = l from h, ↓reduceDIte]
-    exact ⟨σ, hi, h, rfl⟩
-  | case2 l σ p l2 h ih =>
-    intro hi
-    rw [fixLoop.eq_1]
-    simp only [show ¬ l.join (step l σ).1 = l from h, ↓reduceDIte]
-    exact ih (hstep l σ hi)
+  intro l σ hi
+  exact fixLoopN_spec step Inv hstep (l.height + 1) l σ (Nat.lt_succ_self _) hi
+
+/-- With enough passes allowed, the bounded iteration is the unbounded one. -/
+theorem fixLoopN_eq_wf (step : Loop n → St n → Loop n × St n) :
+    ∀ (k : Nat) l σ, l.height < k → fixLoopN step k l σ = fixLoopWF step l σ
+  | 0, l, σ, hk => absurd hk (Nat.not_lt_zero _)
+  | k + 1, l, σ, hk => by
+    unfold fixLoopN
+    rw [fixLoopWF.eq_1]
+    by_cases h : l.join (step l σ).1 = l
+    · simp only [h, ↓reduceIte, ↓reduceDIte]
+    · simp only [h, ↓reduceIte, ↓reduceDIte]
+      have hlt := Loop.height_join_lt l (step l σ).1 h
+      exact fixLoopN_eq_wf step k _ _ (by omega)
+
+/-- `fixLoop` is `doWhile`'s unbounded iteration (the one Lean's termination checker accepts on
+the lattice-height measure). -/
+theorem fixLoop_eq_wf (step : Loop n → St n → Loop n × St n) (l : Loop n) (σ : St n) :
+    fixLoop step l σ = fixLoopWF step l σ :=
+  fixLoopN_eq_wf step (l.height + 1) l σ (Nat.lt_succ_self _)
 
 /-- One pass, unfolded, given that the body keeps the loop stack's shape. -/
 theorem whileStep_eq (wt : Bool) (c : Ex) (body : Lv n → St n → Lv n × St n) (l : Loop n) (σ : St n)
